@@ -60,6 +60,33 @@ BATHS = {
     "cold": [dict(ftype="OverdampedBrownian", reorg=20.0, cortime=60.0, T=100.0,
                   matsubara=20)] * 3,
 }
+# user-supplied CorrelationFunctionMatrix: alphabet of bath functions and of assignment patterns
+# [bath index, [(k, l), ...]]; every pattern is symmetric and fills the whole diagonal
+CFM_BATHS = [dict(ftype="OverdampedBrownian", reorg=30.0, cortime=100.0, T=300.0),
+             dict(ftype="OverdampedBrownian", reorg=15.0, cortime=60.0, T=300.0),
+             dict(ftype="OverdampedBrownian", reorg=45.0, cortime=80.0, T=300.0),
+             dict(ftype="OverdampedBrownian", reorg=10.0, cortime=100.0, T=300.0)]
+
+
+def cfm_pattern(n, name):
+    """assignment list of the named pattern for n sites."""
+    sq = lambda idx: [[i, j] for i in idx for j in idx]
+    if name == "diag":              # explicit matrix, independent site baths (no cross terms)
+        return [[k, [[k, k]]] for k in range(n)]
+    if name == "all":               # one bath felt by all sites (fully correlated)
+        return [[0, sq(range(n))]]
+    if name.startswith("pair"):     # two sites share bath 0 (fully correlated), the rest own baths
+        i, j = int(name[4]), int(name[5])
+        rest = [k for k in range(n) if k not in (i, j)]
+        return [[0, sq([i, j])]] + [[1 + m, [[k, k]]] for m, k in enumerate(rest)]
+    if name == "partial":           # own bath per site, every pair weakly correlated by bath 3
+        return [[k, [[k, k]]] for k in range(n)] + \
+               [[3, [[i, j] for i in range(n) for j in range(n) if i != j]]]
+    if name == "partial01":         # own baths, only sites 0 and 1 weakly correlated
+        return [[k, [[k, k]]] for k in range(n)] + [[3, [[0, 1], [1, 0]]]]
+    raise ValueError(name)
+
+
 DD_DIPOLE_FACTOR = 4.0    # dipole-dipole mode: dipoles of ~4 D at ~7 A give |J| ~ 20-100 1/cm
 SCALES = [0.5, 2.0]
 
@@ -121,6 +148,11 @@ def spec_of(case):
             # common ground-state energy of all molecules (1/cm): transition energies, and with them
             # every line position, do not depend on it
             "e0": float(case.get("e0", 0.0)),
+            # user-supplied CorrelationFunctionMatrix (assignment list) instead of per-molecule
+            # transition environments; None = the molecules carry their own functions
+            "cfm": cfm_pattern(n, case["cfm"]) if case.get("cfm") else None,
+            # couplings below/at a cut-off split off into a remainder: [mode, value in 1/cm]
+            "cutoff": list(case["cutoff"]) if case.get("cutoff") else None,
             "Nt": case["Nt"], "dt": case["dt"]}
 
 
@@ -142,14 +174,21 @@ def variant(spec, scale=None, rot=None, perm=None, zero_coupling=False, no_bath=
         for key in ("E", "dip", "pos", "bath"):
             s[key] = [s[key][i] for i in p]
         s["J"] = [[s["J"][i][j] for j in p] for i in p]
+        if s.get("cfm"):
+            # new site a is old site p[a]: old index i sits at position p.index(i)
+            s["cfm"] = [[ib, [[p.index(i), p.index(j)] for i, j in where]]
+                        for ib, where in s["cfm"]]
     if zero_coupling:
         n = s["n"]
         s["J"] = [[0.0] * n for _ in range(n)]
         s["dd"] = False
         s["tensor"] = False
+        if s.get("cutoff") and s["cutoff"][0] == "effective-RF":
+            s["cutoff"] = None       # the mode IS a supplied tensor + effective Hamiltonian
     if no_bath:
         s["bath"] = None
         s["tensor"] = False
+        s["cfm"] = None
     return s
 
 
@@ -167,7 +206,24 @@ def build(spec, ta=None):
     b.ta = ta if ta is not None else qr.TimeAxis(0.0, int(spec["Nt"]), float(spec["dt"]))
     n = spec["n"]
     cfs = []
-    if spec["bath"] is not None:
+    cfm = spec.get("cfm") if spec["bath"] is not None else None
+    cmat = None
+    b.cfmat = None
+    if cfm:
+        # user-supplied matrix of (cross-)correlation functions; the reference gets the samples
+        # of the functions handed in, not what the library stores
+        from quantarhei.qm.corfunctions import CorrelationFunctionMatrix
+        cmat = CorrelationFunctionMatrix(b.ta, n)
+        fobj = {}
+        b.cfmat = [[numpy.zeros(b.ta.length, dtype=complex) for _ in range(n)]
+                   for _ in range(n)]
+        for ib, where in cfm:
+            if ib not in fobj:
+                fobj[ib] = systems.corfce(b.ta, CFM_BATHS[ib])
+            cmat.set_correlation_function(fobj[ib], [tuple(w) for w in where])
+            for i, j in where:
+                b.cfmat[i][j] = numpy.array(fobj[ib].data, dtype=complex)
+    elif spec["bath"] is not None:
         shared = None
         for k in range(n):
             if spec["shared_cf"]:
@@ -187,6 +243,8 @@ def build(spec, ta=None):
         mols[k].position = numpy.array(spec["pos"][k], dtype=float)
         if cfs:
             mols[k].set_transition_environment((0, 1), cfs[k])
+        elif cmat is not None:
+            mols[k].set_egcf_mapping((0, 1), cmat, k)
     b.cfs = [numpy.array(c.data, dtype=complex) for c in cfs] if cfs else None
     b.tensor = None
     b.ham = None
@@ -206,6 +264,8 @@ def build(spec, ta=None):
         isolation.reset_units()
         return b
     agg = qr.Aggregate(molecules=mols)
+    if cmat is not None:
+        agg.set_egcf_matrix(cmat)
     if spec["dd"]:
         agg.set_coupling_by_dipole_dipole(epsr=float(spec["epsr"]))
     else:
@@ -217,7 +277,28 @@ def build(spec, ta=None):
     agg.build()
     isolation.reset_units()          # Aggregate.build may leave units switched (C05 owns that)
     b.system = agg
-    if spec["tensor"]:
+    cut = spec.get("cutoff")
+    if cut and cut[0] in ("remove", "subtract"):
+        # the user splits the weak couplings off the SYSTEM Hamiltonian (remainder coupling JR)
+        with qr.energy_units("1/cm"):
+            if cut[0] == "remove":
+                agg.get_Hamiltonian().remove_cutoff_coupling(float(cut[1]))
+            else:
+                agg.get_Hamiltonian().subtract_cutoff_coupling(float(cut[1]))
+        isolation.reset_units()
+    if cut and cut[0] == "effective-RF":
+        # tensor + effective Hamiltonian (carrying a remainder coupling) of the combined theory
+        with qr.energy_units("1/cm"):
+            rr, ham = agg.get_RelaxationTensor(b.ta,
+                                               relaxation_theory="combined_RedfieldFoerster",
+                                               coupling_cutoff=float(cut[1]),
+                                               secular_relaxation=True,
+                                               time_dependent=(spec["tensor"] == "td"))
+        isolation.reset_units()
+        b.tensor, b.ham = rr, ham
+        b.calc = qr.AbsSpectrumCalculator(b.ta, system=agg, relaxation_tensor=rr,
+                                          effective_hamiltonian=ham)
+    elif spec["tensor"]:
         rr, ham = agg.get_RelaxationTensor(b.ta, relaxation_theory="standard_Redfield",
                                            secular_relaxation=True,
                                            time_dependent=(spec["tensor"] == "td"))
@@ -242,7 +323,24 @@ def observed_objects(b):
         o["tensor"] = b.tensor
         if b.ham is not o["hamiltonian"]:
             o["effective-hamiltonian"] = b.ham
+    # state a Hamiltonian carries besides its matrix: the split-off (remainder) coupling
+    for name in ("hamiltonian", "effective-hamiltonian"):
+        h = o.get(name)
+        if h is not None and getattr(h, "_has_remainder_coupling", False):
+            o[name + "-remainder-coupling"] = _Attr(h, "JR")
+            o[name + "-remainder-flag"] = _Attr(h, "_has_remainder_coupling")
     return o
+
+
+class _Attr:
+    """An attribute of an object that the library may REBIND (looked up at comparison time)."""
+
+    def __init__(self, obj, name):
+        self.obj, self.name = obj, name
+
+    @property
+    def data(self):
+        return numpy.atleast_1d(numpy.array(getattr(self.obj, self.name), dtype=float))
 
 
 def _arr(x):
@@ -288,12 +386,19 @@ def same_spectrum(ref, other, tol, factor=1.0):
 # reference
 # ------------------------------------------------------------------------------------------
 def reference_signal(b, hlib_before, rsite_before):
-    """a(t) (rotating at wref) of the system described by the case, from the spec."""
+    """a(t) (rotating at wref) of the system described by the case, from the spec.
+
+    hlib_before: data of the Hamiltonian the calculator works with (the system's, or the supplied
+    effective one), taken before the call."""
     qr = isolation.qr()
     spec = b.spec
     cm2int = float(qr.convert(1.0, "1/cm", "int"))
     n = spec["n"]
-    if spec["kind"] == "molecule" or not spec["dd"]:
+    if spec.get("cutoff"):
+        # the Hamiltonian without the split-off couplings is what the user hands over (which
+        # couplings Hamiltonian.remove/subtract_cutoff_coupling splits off is not C11's matter)
+        h1 = numpy.array(hlib_before[1:, 1:], dtype=float)
+    elif spec["kind"] == "molecule" or not spec["dd"]:
         h1 = numpy.zeros((n, n))
         for i in range(n):
             h1[i, i] = spec["E"][i] * cm2int
@@ -306,78 +411,20 @@ def reference_signal(b, hlib_before, rsite_before):
         h1 = numpy.array(hlib_before[1:, 1:], dtype=float)
     wref = float(numpy.mean(numpy.diag(h1)))
     a, info = AR.dipole_correlation(b.ta.data, h1, spec["dip"], b.cfs, rsite=rsite_before,
-                                    wref=wref, extra_rates=b.extra_rates)
+                                    wref=wref, extra_rates=b.extra_rates,
+                                    site_cf_matrix=b.cfmat)
     info["wref"] = wref
     info["h1"] = h1
     return a, info
 
 
-# ------------------------------------------------------------------------------------------
-# the case
-# ------------------------------------------------------------------------------------------
-def eval_case(case, tier=None):
-    tier = tier or case.get("_tier", "quick")
-    if case.get("route") == "dynamics":
-        return eval_dynamics(case, tier)
-    spec = spec_of(case)
-    viol = {}
-    dev = {}
-    ncalc = 0
+def fourier_clause(b, base, hlib, rsite, kindtag, add, worst):
+    """Fourier clause for the spectrum `base` = (axis, data) of the built system b.
 
-    def add(key, what, det=None):
-        if key not in viol:
-            viol[key] = (key, what, det)
-
-    def worst(name, x):
-        dev[name] = max(dev.get(name, 0.0), float(x))
-
-    kind = spec["kind"]
-    n = spec["n"]
-    kindtag = kind + ("+td-tensor" if spec["tensor"] == "td" else
-                      "+tensor" if spec["tensor"] else "")
+    Returns None when the axis is unusable, else dict(fourier=classification, info=..., lines=...,
+    resolved=..., peak=...)."""
+    spec = b.spec
     nt, dt = spec["Nt"], spec["dt"]
-
-    # ---------------- base system: purity + Fourier -----------------------------------
-    b = build(spec)
-    objs = observed_objects(b)
-    snap = snapshot(objs)
-    hlib = None if kind == "molecule" else snap["hamiltonian"].copy()
-    rsite = snap.get("tensor")
-    base = spectrum(b, raw=True)
-    ncalc += 1
-    bad, w = changed(objs, snap)
-    worst("purity", w)
-    if bad:
-        add("purity/after-calculate/" + "+".join(sorted(bad)),
-            "calculate(raw=True) changed %s of the system (max rel. change %.3g)" % (bad, w),
-            {"changed": bad})
-    nonraw = spectrum(b, raw=False)
-    ncalc += 1
-    bad, w = changed(objs, snap)
-    worst("purity", w)
-    if bad:
-        add("purity/after-calculate/" + "+".join(sorted(bad)),
-            "calculate(raw=False) changed %s of the system (max rel. change %.3g)" % (bad, w),
-            {"changed": bad})
-    if kind == "aggregate":
-        # objects handed out after the call are still the ones observed
-        if b.system.get_Hamiltonian() is not objs["hamiltonian"] or \
-                b.system.get_TransitionDipoleMoment() is not objs["dipole"]:
-            o2 = {"hamiltonian": b.system.get_Hamiltonian(),
-                  "dipole": b.system.get_TransitionDipoleMoment()}
-            bad2, w2 = changed(o2, snap)
-            if bad2:
-                add("purity/after-calculate/replaced-" + "+".join(sorted(bad2)),
-                    "system hands out different %s after calculate" % bad2, None)
-    again = spectrum(b, raw=True)
-    ncalc += 1
-    ok, rel = same_spectrum(base, again, TOL_R)
-    worst("purity-second-call", rel)
-    if not ok:
-        add("purity/second-call-differs",
-            "a second calculate() on the same objects returns a different spectrum "
-            "(rel. dev %.3g)" % rel, None)
-
     x, y = base
     # axis sanity (nothing about the grid itself is demanded)
     a_t, info = reference_signal(b, hlib, rsite)
@@ -385,8 +432,7 @@ def eval_case(case, tier=None):
     if len(x) != len(y) or len(x) < 2 or not numpy.all(numpy.diff(x) > 0):
         add("axis/not-increasing-or-length", "returned axis is not a strictly increasing axis "
             "of the length of the data", None)
-        return {"nontrivial": False, "outcome": "bad-axis", "violations": list(viol.values()),
-                "n": ncalc - 1}
+        return None
     else:
         steps = numpy.diff(x)
         if float(numpy.max(numpy.abs(steps - steps[0]))) > 1e-9 * abs(steps[0]):
@@ -441,6 +487,88 @@ def eval_case(case, tier=None):
                 {"on_axis_error": errf, "peak": peak, "best_shift": best})
     elif resolved:
         worst("fourier", errf / peak)
+
+    return {"fourier": fourier, "info": info, "lines": lines, "resolved": resolved, "peak": peak}
+
+
+# ------------------------------------------------------------------------------------------
+# the case
+# ------------------------------------------------------------------------------------------
+def eval_case(case, tier=None):
+    tier = tier or case.get("_tier", "quick")
+    if case.get("route") == "dynamics":
+        return eval_dynamics(case, tier)
+    spec = spec_of(case)
+    viol = {}
+    dev = {}
+    ncalc = 0
+
+    def add(key, what, det=None):
+        if key not in viol:
+            viol[key] = (key, what, det)
+
+    def worst(name, x):
+        dev[name] = max(dev.get(name, 0.0), float(x))
+
+    kind = spec["kind"]
+    n = spec["n"]
+    kindtag = kind + ("+td-tensor" if spec["tensor"] == "td" else
+                      "+tensor" if spec["tensor"] else "")
+    if spec.get("cfm"):
+        kindtag += "+cf-matrix"
+    if spec.get("cutoff"):
+        kindtag += "+cutoff-" + spec["cutoff"][0]
+    nt, dt = spec["Nt"], spec["dt"]
+
+    # ---------------- base system: purity + Fourier -----------------------------------
+    b = build(spec)
+    objs = observed_objects(b)
+    snap = snapshot(objs)
+    hlib = None if kind == "molecule" else snap["hamiltonian"].copy()
+    if spec.get("cutoff") and "effective-hamiltonian" in snap:
+        hlib = snap["effective-hamiltonian"].copy()     # the one the calculator is given
+    rsite = snap.get("tensor")
+    base = spectrum(b, raw=True)
+    ncalc += 1
+    bad, w = changed(objs, snap)
+    worst("purity", w)
+    if bad:
+        add("purity/after-calculate/" + "+".join(sorted(bad)),
+            "calculate(raw=True) changed %s of the system (max rel. change %.3g)" % (bad, w),
+            {"changed": bad})
+    nonraw = spectrum(b, raw=False)
+    ncalc += 1
+    bad, w = changed(objs, snap)
+    worst("purity", w)
+    if bad:
+        add("purity/after-calculate/" + "+".join(sorted(bad)),
+            "calculate(raw=False) changed %s of the system (max rel. change %.3g)" % (bad, w),
+            {"changed": bad})
+    if kind == "aggregate":
+        # objects handed out after the call are still the ones observed
+        if b.system.get_Hamiltonian() is not objs["hamiltonian"] or \
+                b.system.get_TransitionDipoleMoment() is not objs["dipole"]:
+            o2 = {"hamiltonian": b.system.get_Hamiltonian(),
+                  "dipole": b.system.get_TransitionDipoleMoment()}
+            bad2, w2 = changed(o2, snap)
+            if bad2:
+                add("purity/after-calculate/replaced-" + "+".join(sorted(bad2)),
+                    "system hands out different %s after calculate" % bad2, None)
+    again = spectrum(b, raw=True)
+    ncalc += 1
+    ok, rel = same_spectrum(base, again, TOL_R)
+    worst("purity-second-call", rel)
+    if not ok:
+        add("purity/second-call-differs",
+            "a second calculate() on the same objects returns a different spectrum "
+            "(rel. dev %.3g)" % rel, None)
+
+    fc = fourier_clause(b, base, hlib, rsite, kindtag, add, worst)
+    if fc is None:
+        return {"nontrivial": False, "outcome": "bad-axis", "violations": list(viol.values()),
+                "n": ncalc - 1}
+    x, y = base
+    fourier, info, lines, resolved = fc["fourier"], fc["info"], fc["lines"], fc["resolved"]
 
     # ---------------- dipole scaling ------------------------------------------------------
     for k in SCALES:
@@ -570,7 +698,9 @@ def eval_case(case, tier=None):
                [round(float(v), 8) for v in lines], fourier]
     return {"nontrivial": nontrivial, "outcome": outcome, "violations": list(viol.values()),
             "n": ncalc - 1,
-            "info": {"dev": dev, "cint": cint, "grp": [nt, dt, case["bath"], bool(spec["tensor"])],
+            "info": {"dev": dev, "cint": cint,
+                     "grp": [nt, dt, ("cf-matrix:" + case["cfm"]) if case.get("cfm")
+                             else case["bath"], bool(spec["tensor"])],
                      "fourier": fourier, "case": case}}
 
 # ------------------------------------------------------------------------------------------
